@@ -26,12 +26,17 @@ KINDS = {
     "unknown_field": (["    bv := Bb { a: 1 }", "    pr(bv.", "        nope)"], [1, 2]),
     "non_bool_condition": (["    if 1 do", "        pr(1)", "    end"], [0]),
     "wrong_arity": (["    two(", "        1)"], [0, 1]),
+    "unresolved_namespace_member": (["    pr(nsmod.nosuch)"], [0]),
+    "unresolved_namespace_member_multiline": (["    two(1,", "        nsmod.nosuch", "", "    )"], [1]),
+    "unresolved_namespace_function_multiline": (["    nsmod.nosuch(", "        1", "    )"], [0]),
 }
 TOP_KINDS = {
     "duplicate_global": (["dup :: 1", "other_name :: 2", "dup :: 3"], [0, 2]),
     "unresolved_global": (["gg :: missing_thing"], [0]),
 }
-HEAD = "two :: fn a: int, b: int -> int do\n    ret a\nend\nBb :: blob {\n    a: int,\n}\n"
+HEAD = "use nsmod\ntwo :: fn a: int, b: int -> int do\n    ret a\nend\nBb :: blob {\n    a: int,\n}\n"
+NSMOD = {"nsmod.sy": "nv :: 1\nnf :: fn a: int do\nend\n"}
+TOP_SYNTAX = {"expression_at_top_level": (["1 + 1"], [0]), "assignment_at_top_level": (["two = two"], [0])}
 
 
 def program(kind, where="main"):
@@ -46,10 +51,10 @@ def program(kind, where="main"):
         first = body.split("\n").index(cons[0]) + 1
     if where == "main":
         text = PRE + body + "start :: fn do\n    work()\nend\n"
-        return {"main.sy": text}, "main.sy", [first + 1 + o for o in acc]
+        return dict(NSMOD, **{"main.sy": text}), "main.sy", [first + 1 + o for o in acc]
     text = PRE + body
     main = "use lib\nstart :: fn do\n    lib.work()\nend\n"
-    return {"main.sy": main, "lib.sy": text}, "lib.sy", [first + 1 + o for o in acc]
+    return dict(NSMOD, **{"main.sy": main, "lib.sy": text}), "lib.sy", [first + 1 + o for o in acc]
 
 
 _CTX = {}
@@ -264,6 +269,14 @@ def run(tier):
                     KINDS[kind] = SYN[kind]
                 nat = native_case(art["replay"], kind, where, shape, crlf); nat_n += 1
                 if kind in SYN: del KINDS[kind]
+                if not nat["ok"]:
+                    fnd.report("wrong-line:%s" % kind, "%s in %s after %d lines of preceding text%s: reported at %s, written at %s" % (kind, where, len(shape), " (CRLF)" if crlf else "", nat.get("got") or nat.get("why"), nat.get("expected")), nat["files"], cmd="sylt --no-std -o out.lua main.sy")
+    for kind, spec in TOP_SYNTAX.items():
+        for where in ("main", "lib"):
+            for shape, crlf in solver_shapes(stats, 2 if tier == "quick" else 6, hash((kind, where, common.seed())) & 0xffff):
+                TOP_KINDS[kind] = spec
+                nat = native_case(art["replay"], kind, where, shape, crlf); nat_n += 1
+                del TOP_KINDS[kind]
                 if not nat["ok"]:
                     fnd.report("wrong-line:%s" % kind, "%s in %s after %d lines of preceding text%s: reported at %s, written at %s" % (kind, where, len(shape), " (CRLF)" if crlf else "", nat.get("got") or nat.get("why"), nat.get("expected")), nat["files"], cmd="sylt --no-std -o out.lua main.sy")
     # errors located at the end of the file (truncated input): the line must be a real line of that file, the last one or the one the open construct starts on
